@@ -184,7 +184,7 @@ def run(ctx):
         if r.violated:
             ctx.violation('C19/spec/%s' % r.violated, 'TLC: %s violated in SegFetch' % r.violated, {'trace': r.errtrace})
         for a in ('Send', 'RespData', 'RespLost', 'RespNack', 'RespVFail'):
-            if r.ok and r.coverage.get(a, (0, 0))[0] == 0:
+            if r.ok and r.coverage.get(a, (0, 0))[1] == 0:
                 raise tlc.MachineryError('vacuous: action %s never taken' % a)
         # vacuity witnesses: each must be reachable (i.e. violated as an invariant)
         for w in ('W_DoneMulti', 'W_TimeoutAfterYield', 'W_LateDisc'):
